@@ -79,11 +79,10 @@ func (m *Manager) Clear(rw http.ResponseWriter, req *http.Request) error {
 			options: m.Options,
 		}
 		tckt.clearCookie(rw, req)
-		// Don't raise an error if we didn't have a Cookie
-		if err == http.ErrNoCookie {
-			return nil
-		}
-		return fmt.Errorf("error decoding ticket to clear session: %v", err)
+		// Without a valid ticket (no cookie, or a cookie that is expired,
+		// forged or otherwise fails validation) there is no stored session to
+		// remove: expiring the cookie is all that can and needs to be done.
+		return nil
 	}
 
 	tckt.clearCookie(rw, req)
